@@ -403,18 +403,9 @@ func genCfg(t *rapid.T, o genOpts) Cfg {
 		c.InvDeg = []int{3, 5, 7}[draw(t, "invDeg", 3)]
 	}
 
-	// iterations (META-BTS). Functional runs keep the repository's arrangement (testRawCircuitHighPrecision): a
-	// {60,40} residual chain (S0, D0, T45) with default scale 2^80; without a reserved prime only one extra iteration
-	// fits under q1 = 2^40 (documented early stopping "round(q1/2^{k*logprec}) < 1").
-	if draw(t, "iterKind", 5) == 0 && (!o.functional || c.Base == "S0" || c.Base == "D0" || c.Base == "T45") {
-		n := rapid.IntRange(1, 2).Draw(t, "iterN")
-		p := []float64{20, 25, 16}[draw(t, "iterPrec", 3)]
-		for i := 0; i < n; i++ {
-			c.Iter = append(c.Iter, p)
-		}
-		if n == 2 || draw(t, "reserved", 2) == 0 {
-			c.Reserved = []int{28, 20, 30}[draw(t, "reservedBits", 3)]
-		}
+	// iterations (META-BTS): the functional generator sets them itself (genBootCase); here any shape for the key oracle
+	if !o.functional && draw(t, "iterKind", 5) == 0 {
+		c.Iter, c.Reserved = genIter(t)
 	}
 	if draw(t, "logPKind", 4) == 0 {
 		// auxiliary primes smaller than the ciphertext primes add key-switching noise: kept for the key-structure oracle only
@@ -424,6 +415,33 @@ func genCfg(t *rapid.T, o genOpts) Cfg {
 		}
 	}
 	return c
+}
+
+// genIter draws IterationsParameters: 1-3 extra iterations with or without a reserved prime. The entries are declared
+// pass precisions; they are kept at or below what one pass delivers on the reduced rings (>= 25 bits). Without a reserved
+// prime the scale-up by round(q1/2^tot) must stay >= 2^logprec for the full announced gain (doc comment of
+// ParametersLiteral: "As long as round(q1/2^{k*logprec}) >= 2^{logprec} ..."), q1 = 2^40: tot_k + logprec <= 40.
+func genIter(t *rapid.T) ([]float64, int) {
+	n := rapid.IntRange(1, 3).Draw(t, "iterN")
+	if draw(t, "reserved", 2) == 0 {
+		p := []float64{25, 20, 16}[draw(t, "iterPrec", 3)]
+		if p == 25 && n == 3 {
+			// 3*25 bits exceed q1*QReserved = 2^(40+28..30): documented early stop "maximum precision achieved"
+			n = 2
+		}
+		it := make([]float64, n)
+		for i := range it {
+			it[i] = p
+		}
+		return it, []int{28, 30}[draw(t, "reservedBits", 2)]
+	}
+	switch n {
+	case 1:
+		return []float64{[]float64{20, 16}[draw(t, "iterPrec1", 2)]}, 0
+	case 2:
+		return []float64{13, 13}, 0
+	}
+	return []float64{10, 10, 10}, 0
 }
 
 func genSplit(t *rapid.T, label string, logSlots, maxDepth int, sizes []int) [][]int {
